@@ -205,7 +205,18 @@ func c09SpecialSeq(g *gen.G, which int) *c09Seq {
 		// number literals in a spelling that printing normalises (0XFF, 1E3), written by an earlier change or captured
 		// from the file: a later change that spells them the old way matches the file the earlier change wrote or it
 		// does not, in the combined run as in the chain
-		if g.R.Intn(2) == 0 {
+		which := g.R.Intn(3)
+		if which == 2 {
+			// the literal stands in a declaration that no change rewrites: it is respelt with the rest of the file when
+			// the first change applies, and stays as it is in a file the first change does not apply to
+			c1 := mk("expr", "c09-rewrites-code-elsewhere", x, nil, "numOld(«x»)", "numMid(«x»)")
+			c2 := mk("expr", "c09-spells-the-untouched-number-as-printed", nil, nil, "0x2A", "numMaskPrinted()")
+			c3 := mk("expr", "c09-spells-the-untouched-number-that-way", nil, nil, "0X2A", "numMaskOld()")
+			c4 := mk("expr", "c09-spells-the-untouched-float-as-printed", nil, nil, "1e6", "numFloatPrinted()")
+			return &c09Seq{changes: []*gen.Change{c1, c2, c3, c4}, roles: []string{"rewrites-code-elsewhere", "spells-the-untouched-number-as-printed", "spells-the-untouched-number-that-way", "spells-the-untouched-float-as-printed"}, base: c1,
+				decls: []string{"const numMaskUntouched = 0X2A", "var numFloatUntouched = 1E6 + float64(0X2A)"}}
+		}
+		if which == 0 {
 			c1 := mk("expr", "c09-writes-a-number-literal", x, nil, "numOld(«x»)", "numNew(«x», 0XFF, 1E3)")
 			c2 := mk("expr", "c09-spells-the-number-that-way", y, nil, "numNew(«y», 0XFF, 1E3)", "numLast(«y»)")
 			c3 := mk("expr", "c09-spells-the-number-as-printed", y, nil, "numNew(«y», 0xFF, 1e3)", "numPrinted(«y»)")
@@ -224,6 +235,15 @@ func c09SpecialSeq(g *gen.G, which int) *c09Seq {
 		return &c09Seq{changes: []*gen.Change{c1, c2}, roles: []string{"keeps-import-as-context", "removes-that-import"}, base: c1,
 			extra:   []string{"keptlog.Warn(%s)", "keptlog.Warning(%s)"},
 			imports: "import (\n\t\"example.com/old/keptlog\"\n\t\"os\"\n)\n\nvar _ = os.Args\n"}
+	case 16:
+		// an earlier change writes a selector on a name that is a parameter where it lands and an imported package
+		// elsewhere; a later change removes that import: whether the import is still referred to is decided on the code
+		// as it stands, also for code the patch wrote (which no parser has resolved)
+		c1 := mk("stmts", "c09-writes-a-name-that-is-a-parameter-there", nil, nil, "writeParamLog()", "paramlog.Print()")
+		c2 := mk("expr", "c09-removes-the-import-of-that-name", nil, []gen.Line{gen.L('-', `import "example.com/pkg/paramlog"`), gen.L(' ', "")}, "paramHelper()", "paramHelper2()")
+		return &c09Seq{changes: []*gen.Change{c1, c2}, roles: []string{"writes-a-name-that-is-a-parameter-there", "removes-the-import-of-that-name"}, base: c2,
+			decls:   []string{"type paramLogT struct{}", "func (paramLogT) Print() {}", "func paramLogFn(paramlog paramLogT) {\n\twriteParamLog()\n\tparamHelper()\n}", "func paramLogLit() {\n\tfor _, paramlog := range []paramLogT{{}} {\n\t\tif true {\n\t\t\twriteParamLog()\n\t\t}\n\t}\n}"},
+			imports: "import (\n\t\"example.com/pkg/paramlog\"\n\t\"os\"\n)\n\nvar _ = os.Args\n"}
 	case 14:
 		// an earlier change declares a local variable that is named like an imported package, above a use of that name;
 		// a later change is guarded by the import and rewrites uses of the package's name: the combined run and the
@@ -577,6 +597,8 @@ func runC09(ctx *core.Ctx, idx int) *core.Result {
 		seq = c09SpecialSeq(g, 14)
 	case 1:
 		seq = c09SpecialSeq(g, 15)
+	case 11:
+		seq = c09SpecialSeq(g, 16)
 	}
 	// files
 	nf := 3
